@@ -72,7 +72,7 @@ pub fn etags() -> Vec<Option<Vec<u8>>> {
 /// the empty tag, obs-text, a long one; plus weak forms.
 pub fn etags_rich() -> Vec<Option<Vec<u8>>> {
     let mut v: Vec<Option<Vec<u8>>> = vec![None];
-    for t in [&b"\"v1\""[..], b"W/\"v1\"", b"\"a, b\"", b"\"1,234\"", b"\"\"", b"\"*\"", b"\"x;q=0\"", b"\"W/\"", b"\"back\\slash\"", b"\"C:\\data\\\"", b"\"\\\"", b"\"v1-caf\xc3\xa9\xff\"", b"W/\"a, b\""] {
+    for t in [&b"\"v1\""[..], b"W/\"v1\"", b"\"a, b\"", b"\"1,234\"", b"\"\"", b"\"*\"", b"\"x;q=0\"", b"\"W/\"", b"\"back\\slash\"", b"\"C:\\data\\\"", b"\"\\\"", b"\"v1-caf\xc3\xa9\xff\"", b"W/\"a, b\"", b"\", \"", b"\",\""] {
         v.push(Some(t.to_vec()));
     }
     v.push(Some(format!("\"{}\"", "t".repeat(300)).into_bytes()));
@@ -104,6 +104,13 @@ pub fn header_sets() -> Vec<Vec<(String, Vec<u8>)>> {
             ("content-language".into(), b"de".to_vec()),
             ("x-a".into(), b"1".to_vec()),
             ("x-a".into(), b"2".to_vec()),
+        ],
+        // very long values (a Content-Security-Policy, a Link header): 1500 and 5000 bytes
+        vec![
+            ("content-type".into(), b"text/html".to_vec()),
+            ("content-security-policy".into(), (0..1500).map(|i| b"abcdefghij; "[i % 12]).collect()),
+            ("link".into(), (0..5000).map(|i| b"<https://example.org/x>; rel=preload, "[i % 38]).collect()),
+            ("x-object-meta".into(), b"1".to_vec()),
         ],
         // values with optional whitespace around them (legal in a HeaderValue; not part of the value)
         vec![
